@@ -862,8 +862,11 @@ def _oracle_stl(sp, s):
         if x.shape[1] == 2:
             x = np.concatenate([x, np.zeros((len(x), 1))], axis=1)
         grid_pts.append(x)
-    if present != expected:
-        fails.append('%d facets present, tessellation has %d' % (present, expected))
+    # with an explicit resolution the grid size is the caller's: 2(nu-1)(nv-1) facets per surface.
+    # (n=None: the library's own sample list repeats every knot but the last for order >= 3, which
+    #  adds zero-area facets; the property does not fix that number, only declared = present.)
+    if nn is not None and present != expected:
+        fails.append('%d facets present, an %s tessellation has %d' % (present, nn, expected))
     if any(len(f) != 3 or any(len(v) != 3 for v in f) for f in facets):
         fails.append('facet without three 3D vertices')
         return fails
